@@ -346,6 +346,28 @@ func (e *fdEngine) Generate(seed uint64, tier string, run int) (json.RawMessage,
 					multi = append(multi, cg)
 				}
 			}
+			if len(multi) >= 6 && rf.Chance(0.5) {
+				// acyclic variant: a chain of composites, every component of one redirected to the
+				// next (fan-out^depth expansions without ever hitting the nesting limit); the last
+				// keeps its own components
+				depth := rf.Range(6, 24)
+				perm := rf.Perm(len(multi))
+				if depth > len(perm) {
+					depth = len(perm)
+				}
+				fan := rf.Range(2, 5)
+				for i := 0; i+1 < depth; i++ {
+					from, to := multi[perm[i]], multi[perm[i+1]]
+					for j, off := range from.IndexOffsets {
+						if j >= fan {
+							break
+						}
+						c.Bytes = append(c.Bytes, ByteFault{Kind: "set16", Off: off, Val: uint32(to.GID), Aim: "glyf:dag"})
+					}
+				}
+				c.Gid = multi[perm[0]].GID
+				return json.Marshal(c)
+			}
 			if len(multi) > 0 {
 				a := kernel.Pick(rf, multi)
 				b := kernel.Pick(rf, multi)
